@@ -73,13 +73,14 @@ type c03env struct {
 	heldSwap  map[int]bool
 	halfSwap  map[int]bool
 	curThread int
+	opStartUnmaps map[int]int // per thread: regions already unmapped when its current operation began
 }
 
 var c03CounterNow time.Time
 
 func newC03env(res *verifrt.Result, base string) *c03env {
 	e := &c03env{res: res, q: &verifrt.Quarantine{}, mon: map[string]*monFile{}, unmapStep: map[string]int{},
-		window: map[int]bool{}, heldSwap: map[int]bool{}, halfSwap: map[int]bool{}}
+		opStartUnmaps: map[int]int{}, window: map[int]bool{}, heldSwap: map[int]bool{}, halfSwap: map[int]bool{}}
 	e.dir, _ = os.MkdirTemp(base, "t")
 	telemetry.Default = telemetry.NewDir(e.dir)
 	os.MkdirAll(telemetry.Default.LocalDir(), 0o777)
@@ -422,6 +423,7 @@ func runC03(res *verifrt.Result, base string, p c03prog, st c03strategy, rnd *ve
 		s.Go(fmt.Sprintf("T%d", ti), func() {
 			for _, op := range ops {
 				e.opEnd(ti)
+				e.opStartUnmaps[ti] = e.q.Count()
 				switch op.Kind {
 				case "add":
 					e.begin(op.Ctr, op.N)
@@ -492,8 +494,18 @@ func c03Judge(r *verifrt.Result, check string, i int, p c03prog, st c03strategy,
 			sig := "panic:" + topFrame(t.Stack)
 			msg := fmt.Sprintf("thread %s panicked in program %s: %v\n%.1500s", t.Name, p.Name, t.Panic, t.Stack)
 			if addr, ok := verifrt.FaultAddr(t.Panic); ok {
-				if label, ok := e.q.Find(addr); ok {
-					sig = "stale-mapping-access:" + topFrame(t.Stack) + ":" + e.causeAny()
+				if idx, label, ok := e.q.FindIndex(addr); ok {
+					timing, cause := "overlapping-call", e.causeAny()
+					if idx < e.opStartUnmaps[t.ID] {
+						// the mapping was already gone when this call began
+						timing = "call-after-unmap"
+						if strings.Contains(cause, "register-race") {
+							cause = "register-race"
+						} else {
+							cause = "none"
+						}
+					}
+					sig = "stale-mapping-access:" + topFrame(t.Stack) + ":" + timing + ":" + cause
 					msg = fmt.Sprintf("thread %s accessed address %#x inside a counter-file mapping that had been unmapped (%s) — in production this is a SIGSEGV or a write into unrelated memory. program %s\n%.1500s", t.Name, addr, label, p.Name, t.Stack)
 				} else {
 					sig = "fault:" + topFrame(t.Stack)
